@@ -323,7 +323,7 @@ func procOrderOf(ff *factFile) ([]procOrderEntry, error) {
 			return true
 		})
 		if stray != nil {
-			return nil, fmt.Errorf("the processor slice `%s` is mentioned at %s outside its definition, `append` statements and the Process call", name, ff.fset.Position(stray.Pos()))
+			return nil, fmt.Errorf("the processor slice `%s` is mentioned in line %d outside its definition, `append` statements and the Process call", name, ff.fset.Position(stray.Pos()).Line)
 		}
 	}
 	var res []procOrderEntry
